@@ -1,18 +1,17 @@
-(* C22 — printing a synthesised tree preserves its structure.  Theorems only; proofs in Proofs/Expr.v.
+(* C22 — printing a synthesised tree preserves its structure.  Theorems only; proofs in Proofs/Expr*.v.
 
-   Model (Model/Expr.v): pr = printer.expr1 on a tree without positions, as a token list;
-   parse_expr = parser.ParseExpr on a token list, fuel-indexed; prec = Token.Precedence,
-   regenerated from token/token.go on every run (Gen/Tokens.v).
+   Model (Model/Expr.v): pr = printer.expr1 on a tree without positions, as a token list (printer as repaired in
+   /repo 509854e: StarExpr.X at UnaryPrec, ErrWrapExpr.X at HighestPrec, .Default at UnaryPrec, "x ?: d" and lambdas
+   parenthesised as operands); parse = parser.ParseExpr on a token list with fuel 14*|ts|+14, which is never exhausted
+   (C22_parser_terminates); prec = Token.Precedence, regenerated from token/token.go on every run (Gen/Tokens.v).
 
-   parse ts = parse_expr (14 * |ts| + 14) ts, which never runs out of fuel (C22_parser_terminates).
-
-   FULL STATEMENT (what C22 asks):
+   FULL STATEMENT (what C22 asks, for the modelled kinds):
      forall e, validb e = true -> noparb e = true -> exists e', parse (pr e) = ROk (PE e') [] /\ strip e' = e.
-   The faithful model REFUTES it (C22_print_parse_roundtrip_refuted and the witnesses below: the
-   printer omits parentheses around ErrWrapExpr.X, ErrWrapExpr.Default, StarExpr.X and around a lambda
-   or an "x ?: d" operand).  What is proved is the statement restricted by the decidable predicate
-   posokb, which says of every operand position that the operand is parenthesised by the printer or
-   is read back at that position by the parser; posokb fails exactly on the shapes above. *)
+   One family of trees still REFUTES it on the faithful model (C22_lambda_body_paren_refuted): a lambda whose single
+   result expression prints with a leading "(" - "x => (-a)(b)" - is read as a lambda with a parenthesised result list.
+   What is proved is the statement restricted by the decidable predicate lamokb that excludes exactly that shape.
+   (The refutations of the unrepaired printer - ErrWrapExpr.X/.Default, StarExpr.X, lambda / "x ?: d" operands - are
+   now instances of the theorem: C22_repaired_shapes.)  Node kinds outside the model are explored by checks/c22.py. *)
 From Coq Require Import List ZArith Bool.
 Import ListNotations.
 From V Require Import Base.Prelude Gen.Tokens Gen.PrinterExpr Model.Expr Proofs.ExprFuel Proofs.Expr Proofs.ExprImage Proofs.ExprGen Proofs.ExprTotal.
@@ -25,20 +24,24 @@ Proof. exact parse_total. Qed.
 (* the round trip: the parser gives back the tree with exactly the printer's parentheses (norm e);
    dropping parentheses gives the original tree *)
 Theorem C22_print_parse_roundtrip_partial : forall e,
-  validb e = true -> noparb e = true -> posokb e = true ->
+  validb e = true -> noparb e = true -> lamokb e = true ->
   exists e', parse (pr e) = ROk (PE e') [] /\ strip e' = e.
 Proof.
-  intros e V N K. exists (norm e). split; [now apply roundtrip_closed|now apply strip_norm_nopar].
+  intros e V N L. exists (norm e). split; [now apply roundtrip_lamok_closed|now apply strip_norm_nopar].
 Qed.
 
 (* the same for trees that contain ParenExpr nodes (used by C19/C20): the result is norm e, it has the
    structure of e, and printing it again gives the same tokens *)
 Theorem C22_roundtrip_norm : forall e,
-  validb e = true -> posokb e = true ->
+  validb e = true -> lamokb e = true ->
   parse (pr e) = ROk (PE (norm e)) [] /\ strip (norm e) = strip e /\ pr (norm e) = pr e.
 Proof.
-  intros e V K. split; [now apply roundtrip_closed|]. split; [apply (strip_norm (sz e)); auto|apply (pr_norm (sz e)); auto].
+  intros e V L. split; [now apply roundtrip_lamok_closed|]. split; [apply (strip_norm (sz e)); auto|apply (pr_norm (sz e)); auto].
 Qed.
+
+(* every operand-position condition of the general round trip (posokb) now holds by itself *)
+Theorem C22_positions_readable : forall e, validb e = true -> lamokb e = true -> posokb e = true.
+Proof. intros e V L. apply (lamok_posok (sz e)); auto. Qed.
 
 (* more fuel never changes an answer: the parse result is a function of the tokens *)
 Theorem C22_parse_fuel_irrelevant : forall f f' ts,
@@ -67,49 +70,42 @@ Theorem C22_mayCombine_covers_prefix_operators :
   forallb (fun t1 => forallb (fun t2 => implb (glues t1 (first_byte t2)) (may_combine t1 (first_byte t2))) prefix_ops) before_ops = true.
 Proof. exact mayCombine_covers. Qed.
 
-(* ---- refutations of the full statement on the faithful model ---- *)
+(* ---- the shapes the unrepaired printer got wrong are now proved cases ---- *)
 Definition a := EId [97%N]. Definition b := EId [98%N]. Definition c := EId [99%N].
-
-(* ErrWrapExpr{X: a+b}  prints  a + b !   which reads  a + (b!) *)
-Theorem C22_errwrap_refuted : let e := EEw xgo_NOT (EBin xgo_ADD a b) in
-  validb e = true /\ noparb e = true /\ exists e', parse (pr e) = ROk (PE e') [] /\ strip e' <> e.
-Proof. intros e. repeat split; try reflexivity. eexists. split; [vm_compute; reflexivity|vm_compute; discriminate]. Qed.
-
-(* StarExpr{X: a+b}  prints  [*] a + b   which reads as the sum of [*]a and b *)
-Theorem C22_star_refuted : let e := EStar (EBin xgo_ADD a b) in
-  validb e = true /\ noparb e = true /\ exists e', parse (pr e) = ROk (PE e') [] /\ strip e' <> e.
-Proof. intros e. repeat split; try reflexivity. eexists. split; [vm_compute; reflexivity|vm_compute; discriminate]. Qed.
-
-(* ErrWrapExpr{X: a, Default: b+c}  prints  a ? : b + c   which reads  (a ?: b) + c *)
-Theorem C22_errwrap_default_refuted : let e := EEwd xgo_QUESTION a (EBin xgo_ADD b c) in
-  validb e = true /\ noparb e = true /\ exists e', parse (pr e) = ROk (PE e') [] /\ strip e' <> e.
-Proof. intros e. repeat split; try reflexivity. eexists. split; [vm_compute; reflexivity|vm_compute; discriminate]. Qed.
-
-(* SelectorExpr{X: a ?: b}  prints  a ? : b . f   which reads  a ?: (b.f) *)
-Theorem C22_default_operand_refuted : let e := ESel (EEwd xgo_QUESTION a b) [102%N] in
-  validb e = true /\ noparb e = true /\ exists e', parse (pr e) = ROk (PE e') [] /\ strip e' <> e.
-Proof. intros e. repeat split; try reflexivity. eexists. split; [vm_compute; reflexivity|vm_compute; discriminate]. Qed.
-
-(* BinaryExpr{X: x => x, +, c}  prints  x => x + c   which reads  x => (x + c);
-   BinaryExpr{X: c, +, Y: x => x}  prints  c + x => x   which is a syntax error;
-   LambdaExpr{x => (a)(b)} (a call as body)  prints  x => (a)(b)  whose "(a)" is read as a parenthesised result list *)
-Theorem C22_lambda_operand_refuted :
-  let x := [120%N] in let e1 := EBin xgo_ADD (ELam [x] false [EId x] false) c in let e2 := EBin xgo_ADD c (ELam [x] false [EId x] false) in
-  let e3 := ELam [x] false [ECall (EUn xgo_SUB a) [b] false] false in
-  validb e1 = true /\ noparb e1 = true /\ (exists e', parse (pr e1) = ROk (PE e') [] /\ strip e' <> e1) /\
-  validb e2 = true /\ noparb e2 = true /\ parse (pr e2) = RErr /\
-  validb e3 = true /\ noparb e3 = true /\ parse (pr e3) = RErr.
+Definition repaired : list expr :=
+  [EEw xgo_NOT (EBin xgo_ADD a b);                          (* (a + b)!        was  a + b!      *)
+   EStar (EBin xgo_ADD a b);                                (* *(a + b)        was  *a + b      *)
+   EEwd xgo_QUESTION a (EBin xgo_ADD b c);                  (* a ?: (b + c)    was  a ?: b + c  *)
+   ESel (EEwd xgo_QUESTION a b) [102%N];                    (* (a ?: b).f      was  a ?: b.f    *)
+   EBin xgo_ADD (ELam [[120%N]] false [EId [120%N]] false) c;   (* (x => x) + c    was  x => x + c  *)
+   EBin xgo_ADD c (ELam [[120%N]] false [EId [120%N]] false);   (* c + (x => x)    was  c + x => x  *)
+   EEw xgo_NOT (EUn xgo_SUB a); EEwd xgo_QUESTION (EEwd xgo_QUESTION a b) c; ECall (ELam [] false [a] false) [b] false].
+Theorem C22_repaired_shapes :
+  forallb (fun e => validb e && noparb e && lamokb e) repaired = true /\
+  Forall (fun e => exists e', parse (pr e) = ROk (PE e') [] /\ strip e' = e /\ e' <> e) repaired.
 Proof.
-  intros x e1 e2 e3. repeat split; try reflexivity; try (vm_compute; reflexivity).
-  eexists. split; [vm_compute; reflexivity|vm_compute; discriminate].
+  split; [vm_compute; reflexivity|].
+  repeat constructor; eexists; (split; [vm_compute; reflexivity|split; [vm_compute; reflexivity|vm_compute; discriminate]]).
 Qed.
+
+(* ---- the remaining refutation of the full statement on the faithful model ----
+   LambdaExpr{x => (-a)(b)} (a call of a parenthesised operand as body) prints  x => (-a)(b) ; the parser takes "(-a)"
+   for a parenthesised result list and then fails on "(b)".  With a body that is parenthesised as a whole - x => (a + b) * c -
+   likewise. *)
+Theorem C22_lambda_body_paren_refuted :
+  let x := [120%N] in
+  let e1 := ELam [x] false [ECall (EUn xgo_SUB a) [b] false] false in
+  let e2 := ELam [x] false [EBin xgo_MUL (EBin xgo_ADD a b) c] false in
+  validb e1 = true /\ noparb e1 = true /\ lamokb e1 = false /\ parse (pr e1) = RErr /\
+  validb e2 = true /\ noparb e2 = true /\ lamokb e2 = false /\ parse (pr e2) = RErr.
+Proof. intros x e1 e2. repeat split; vm_compute; reflexivity. Qed.
 
 (* hence the full statement is false on the model *)
 Theorem C22_print_parse_roundtrip_refuted :
   ~ (forall e, validb e = true -> noparb e = true -> exists e', parse (pr e) = ROk (PE e') [] /\ strip e' = e).
 Proof.
-  intros H. destruct C22_star_refuted as (V & N & e1 & P1 & D1). destruct (H _ V N) as (e2 & P2 & D2).
-  rewrite P1 in P2. injection P2 as <-. exact (D1 D2).
+  intros H. destruct C22_lambda_body_paren_refuted as (V & N & _ & R & _). destruct (H _ V N) as (e' & P' & _).
+  rewrite R in P'. discriminate P'.
 Qed.
 
 (* ---- non-vacuity: the hypotheses hold of a tree that uses every proved kind and needs parentheses in
@@ -121,16 +117,16 @@ Definition big : expr :=
        (ECall (ESel (EUn xgo_SUB a) [102%N]) [EBin xgo_LOR a b; EIdx (EStar a) (ELit xgo_INT [49%N]); EEwd xgo_QUESTION (ECall a [] false) (EUn xgo_NOT c);
                                               ELam [[120%N]; [121%N]] true [EBin xgo_ADD a b; ELam [[120%N]] false [EUn xgo_SUB c] false] true] true)
        (EBin xgo_SUB (EEw xgo_NOT (ECall b [c] false)) (EBin xgo_SRARROW a b))).
-Example C22_example_hypotheses : validb big = true /\ noparb big = true /\ posokb big = true.
+Example C22_example_hypotheses : validb big = true /\ noparb big = true /\ lamokb big = true /\ posokb big = true.
 Proof. vm_compute. auto. Qed.
 Example C22_example_roundtrip : parse (pr big) = ROk (PE (norm big)) [] /\ strip (norm big) = big /\ norm big <> big.
 Proof. vm_compute. repeat split; try reflexivity. discriminate. Qed.
-(* posokb is what separates the proved trees from the refuted ones *)
-Example C22_example_posok_fails :
-  posokb (EEw xgo_NOT (EBin xgo_ADD a b)) = false /\ posokb (EStar (EBin xgo_ADD a b)) = false /\
-  posokb (EEwd xgo_QUESTION a (EBin xgo_ADD b c)) = false /\ posokb (ESel (EEwd xgo_QUESTION a b) [102%N]) = false /\
-  posokb (EEw xgo_NOT (ECall a [] false)) = true /\ posokb (EStar (EUn xgo_SUB a)) = true.
-Proof. vm_compute. auto 10. Qed.
+(* lamokb is what separates the proved trees from the refuted ones *)
+Example C22_example_lamok :
+  lamokb (ELam [[120%N]] false [ECall (EUn xgo_SUB a) [b] false] false) = false /\
+  lamokb (ELam [[120%N]] false [EUn xgo_SUB (ECall a [b] false)] false) = true /\
+  lamokb (ELam [[120%N]] false [ECall (EUn xgo_SUB a) [b] false; c] true) = true.
+Proof. vm_compute. auto. Qed.
 
 Print Assumptions C22_parser_terminates.
 Print Assumptions C22_print_parse_roundtrip_partial.
@@ -141,9 +137,7 @@ Print Assumptions C22_delimiters_lowest.
 Print Assumptions C22_levels_inhabited.
 Print Assumptions C22_precedence_constants.
 Print Assumptions C22_mayCombine_covers_prefix_operators.
-Print Assumptions C22_errwrap_refuted.
-Print Assumptions C22_star_refuted.
-Print Assumptions C22_errwrap_default_refuted.
-Print Assumptions C22_default_operand_refuted.
-Print Assumptions C22_lambda_operand_refuted.
+Print Assumptions C22_positions_readable.
+Print Assumptions C22_repaired_shapes.
+Print Assumptions C22_lambda_body_paren_refuted.
 Print Assumptions C22_print_parse_roundtrip_refuted.
